@@ -71,6 +71,32 @@ PROPS["C18"] = {
     "trusted_base": ["model MsiModel/Timestamp.lean (hand-written)", "Gen/Timestamp.lean regenerated from src/internal/timestamp.rs"],
     "assumptions": ["SystemTime has i64 seconds and checked_add/checked_sub behave as on 64-bit Linux"],
 }
+PROPS["C13"] = {
+    "module": "MsiProofs.Props.C13",
+    "gen": ["expr"],
+    "profiles": ["dev", "release"],
+    "theorems": [
+        "MsiProofs.C13.unop_total", "MsiProofs.C13.binop_total", "MsiProofs.C13.row_get_ok",
+        "MsiProofs.C13.eval_total", "MsiProofs.C13.build_eval", "MsiProofs.C13.build_columns",
+        "MsiProofs.C13.arith_spec", "MsiProofs.C13.neg_spec", "MsiProofs.C13.bitwise_spec",
+        "MsiProofs.C13.div_spec", "MsiProofs.C13.shift_spec", "MsiProofs.C13.wrong_type_null",
+        "MsiProofs.C13.add_spec", "MsiProofs.C13.unop_wrong_type_null", "MsiProofs.C13.cmp_spec",
+        "MsiProofs.C13.cmp_isBool", "MsiProofs.C13.truthy_spec", "MsiProofs.C13.logic_spec",
+    ],
+    "level_text": "Lean theorems by structural induction over expression trees of any depth, integers as Int32 (two's complement): evaluation "
+                  "never panics on a row having the referenced columns; an expression built through the folding constructors evaluates like "
+                  "the lazy tree and names the same columns; operator table (+ - * wrap, / truncates and wraps, zero divisor / wrong types / "
+                  "out-of-range shift give null, string + concatenates, comparisons and NOT/AND/OR give 0/1 under the documented truthiness, "
+                  "short-circuit); tie: three-way outcome diff (value / panic) against the real Expr API in dev (overflow checks on) and release.",
+    "level_note": "Trusted: Lean kernel and core Int32 lemmas; hand model of expr.rs; harness builds rows through the cfg(msi_verif) hook make_row "
+                  "(so i32::MIN can sit in a column). Evaluation through select/update/delete conditions is covered by C03/C12.",
+    "technique": "Lean 4 proof (structural induction, Int32) + differential enumeration in two build profiles",
+    "rule": "all depth-1 trees (18 operators x 24 leaves: the 12 literals of the property + 12 columns holding them); depth-2 trees over all "
+            "operator pairs and both positions with boundary leaves (sampled 1/6 in quick, complete in thorough); seeded random trees to depth 6; "
+            "rows lacking a column (model-vs-real only). non-trivial = distinct non-leaf expressions whose documented value is defined",
+    "trusted_base": ["model MsiModel/Expr.lean, MsiModel/Value.lean (hand-written)", "reference evaluator harness/src/expr.rs::ref_eval (oracle)"],
+    "assumptions": [],
+}
 
 # reasons for properties not claimed (yet); everything else defaults to "not yet built"
 NOT_CLAIMED = {}
